@@ -183,7 +183,12 @@ def gen_pdus(rng, n):
             # receipts, well-formed and not
             text = rng.choice(('id:abc sub:001 dlvrd:001 submit date:2501011200 done date:2501011201 stat:DELIVRD err:000 text:x',
                                'id:abc sub:zzz dlvrd:001', 'id:1 submit date:9913312400 done date:0000000000', 'id: err:-1 text',
-                               'id:x done date:25010112', 'sub:1_0 err:+5 id:y', ':::', 'id:' + 'x' * 200))
+                               'id:x done date:25010112', 'sub:1_0 err:+5 id:y', ':::', 'id:' + 'x' * 200,
+                               # date fields of every length (two-digit groups missing or in excess), signs, blanks
+                               'id:d1 submit date:2301', 'id:d2 done date:23', 'id:d3 done date:230101123',
+                               'id:d4 submit date:2301011231000000', 'id:d5 done date:23010112310000001', 'id:d6 submit date:',
+                               'id:d7 done date:250101120159', 'id:d8 done date:2501011201+1', 'id:d9 submit date:25 1 1 1 1',
+                               'id:d10 done date:-501011201'))
             body = b'\x00\x00\x00\x00\x00\x00\x00' + bytes([rng.choice((4, 4, 0x24, 8))]) + b'\x00\x00\x00\x00\x00\x00' + \
                 bytes([rng.choice((0, 1, 3))]) + b'\x00' + bytes([len(text)]) + text.encode('latin-1')
             out.append((pdu(5, 0, seq, body), 'receipt'))
@@ -267,7 +272,9 @@ def generate(rng, tier):
                 # a receipt for a known id whose other fields are not what the format prescribes (vendor codes, empty or
                 # missing fields): whatever the parser makes of them meets a correlator that knows the id
                 bad = rng.choice(('err:E42', 'err:', 'err:-1', 'err:1_0', 'sub:abc', 'dlvrd:', 'submit date:25010112',
-                                  'done date:9913011201', 'stat:', 'err:0x11', 'err:' + '9' * 40))
+                                  'done date:9913011201', 'stat:', 'err:0x11', 'err:' + '9' * 40,
+                                  'submit date:2301', 'done date:23', 'done date:230101123', 'submit date:2301011231000000',
+                                  'done date:23010112310000001', 'submit date:', 'done date:250101120159'))
                 key = bad.split(':')[0]
                 parts = text.split(' text:')[0]
                 import re as _re
